@@ -261,6 +261,10 @@ pub fn cut_sign_updated_nodes(updated_nodes: &mut Vec<Node>, signing_key: &Ed255
 /// an uninterpreted fact that only the sub-entity validation loop establishes
 pub uninterp spec fn subs_validated(ra: RoomAuthorisations, subs: HashMap<String, Vec<InsertEntity>>, key: Vec<u8>) -> bool;
 
+/// whether the sub-entities of a room mutation demand the room-admin right (an admin entry is present, or some group mutation
+/// returned true: see validate_authorisation_mutation): the value computed by the cut loop of validate_room_mutation
+pub uninterp spec fn room_change_needs_admin(subs: HashMap<String, Vec<InsertEntity>>, room: Room, key: Vec<u8>) -> bool;
+
 impl RoomAuthorisations {
     // E8 cut (a whole helper function): validate_sub_nodes is
     //   `for entry in &mut entity_to_mutate.sub_nodes { for insert_entity in entry.1 { validate_entity_mutation(..)?; rooms.append(..) } }`
@@ -279,7 +283,8 @@ impl RoomAuthorisations {
     // needs the room-admin right.
     #[verifier::external_body]
     pub fn cut_room_sub_nodes(&self, sub_nodes: &mut HashMap<String, Vec<InsertEntity>>, room: &mut Room, verifying_key: &Vec<u8>) -> (r: Result<bool>)
-        ensures final(room).id == old(room).id
+        ensures final(room).id == old(room).id,
+            r is Ok ==> r->Ok_0 == room_change_needs_admin(*old(sub_nodes), *old(room), *verifying_key)
     { unimplemented!() }
 }
 
@@ -463,6 +468,9 @@ impl Room {
             r is Ok && r->Ok_0 is Some && old(insert_entity).node_to_mutate.old_node is Some ==>
                 self.rooms@.contains_key(old(insert_entity).node_to_mutate.old_node->Some_0.id)
                 && spec_is_admin(self.rooms@[old(insert_entity).node_to_mutate.old_node->Some_0.id], *verifying_key, old(insert_entity).node_to_mutate.date),
+            // [room_change_needing_admin_checked_on_result]{C01} when the sub-entities demand the room-admin right, the caller must be an admin of the RESULTING definition at the operation's date
+            r is Ok && r->Ok_0 is Some ==> exists|room_before: Room| room_before.id == r->Ok_0->Some_0.id
+                && (room_change_needs_admin(old(insert_entity).sub_nodes, room_before, *verifying_key) ==> spec_is_admin(r->Ok_0->Some_0, *verifying_key, old(insert_entity).node_to_mutate.date)),
             // [room_rows_carry_no_room_id]{C01} a new room row never claims to live in another room
             r is Ok && r->Ok_0 is Some && old(insert_entity).node_to_mutate.old_node is None ==> old(insert_entity).node_to_mutate.room_id is None,
             // [no_reference_removal_on_rooms]{C01} references of a room (admins, groups) are never removed
@@ -489,6 +497,145 @@ pub uninterp spec fn nondet(k: int) -> bool;
             // [edge_kept_iff_author_entitled]{C02,C12} a reference received from a peer is forwarded to the writer exactly when the synchronised room grants its author the own-rows right on the source entity at the reference's creation date; otherwise its source id is reported as rejected
             final(valid_edges)@ == (if spec_can(*room, edge.verifying_key, entity_name@, edge.cdate, RightType::MutateSelf) { old(valid_edges)@.push(edge) } else { old(valid_edges)@ }),
             final(invalid)@ == (if spec_can(*room, edge.verifying_key, entity_name@, edge.cdate, RightType::MutateSelf) { old(invalid)@ } else { old(invalid)@.push(edge.src) }),
+//@ end
+
+// ================================================================= group mutations inside a room mutation (C01)
+#[verifier::external_body]
+pub fn user_from_json(json: &String, date: i64) -> (r: Result<User>) ensures r is Ok ==> r->Ok_0.date == date { unimplemented!() }          // under contract in u3_loaders
+#[verifier::external_body]
+pub fn entity_right_from_json(valid_from: i64, json: &String) -> (r: Result<EntityRight>) ensures r is Ok ==> right_normalised(r->Ok_0) && er_valid_from(r->Ok_0) == valid_from { unimplemented!() }
+impl Authorisation {
+    #[verifier::external_body]
+    pub fn default() -> (r: Authorisation)
+        ensures r.users@ == Map::<Vec<u8>, Vec<User>>::empty(), r.user_admins@ == Map::<Vec<u8>, Vec<User>>::empty(), r.rights@ == Map::<String, Vec<EntityRight>>::empty()
+    { unimplemented!() }
+}
+impl Room {
+    // Room::get_auth_mut is `self.authorisations.get_mut(id)`: ASSUMED std semantics of HashMap::get_mut (the returned reference
+    // is the only way the map changes; every other group and field is untouched)
+    #[verifier::external_body]
+    pub fn get_auth_mut<'a>(&'a mut self, id: &Uid) -> (r: Option<&'a mut Authorisation>)
+        ensures
+            match r {
+                Some(u) => old(self).authorisations@.contains_key(*id) && *u == old(self).authorisations@[*id]
+                            && final(self).authorisations@ == old(self).authorisations@.insert(*id, *final(u)),
+                None => !old(self).authorisations@.contains_key(*id) && final(self).authorisations@ == old(self).authorisations@,
+            },
+            final(self).id == old(self).id && final(self).mdate == old(self).mdate && final(self).admins == old(self).admins,
+    { unimplemented!() }
+}
+//@ use-contract u1_room.rs :: Room::add_auth
+//@ use-contract u1_room.rs :: Authorisation::add_user
+//@ use-contract u1_room.rs :: Authorisation::add_user_admin
+//@ use-contract u1_room.rs :: Authorisation::add_right
+
+/// every history list of `b` extends the list of the same key in `a` (append-only)
+pub open spec fn users_extend(a: Map<Vec<u8>, Vec<User>>, b: Map<Vec<u8>, Vec<User>>) -> bool {
+    forall|k: Vec<u8>| #[trigger] a.contains_key(k) ==> b.contains_key(k) && a[k]@.is_prefix_of(b[k]@)
+}
+pub open spec fn rights_extend(a: Map<String, Vec<EntityRight>>, b: Map<String, Vec<EntityRight>>) -> bool {
+    forall|k: String| #[trigger] a.contains_key(k) ==> b.contains_key(k) && a[k]@.is_prefix_of(b[k]@)
+}
+pub open spec fn group_extends(a: Authorisation, b: Authorisation) -> bool {
+    b.id == a.id && users_extend(a.users@, b.users@) && users_extend(a.user_admins@, b.user_admins@) && rights_extend(a.rights@, b.rights@)
+}
+pub proof fn lemma_users_appended_extend(a: Map<Vec<u8>, Vec<User>>, b: Map<Vec<u8>, Vec<User>>, c: Map<Vec<u8>, Vec<User>>, u: User)
+    requires users_extend(a, b), users_appended(b, c, u),
+    ensures users_extend(a, c),
+{
+    assert forall|k: Vec<u8>| #[trigger] a.contains_key(k) implies c.contains_key(k) && a[k]@.is_prefix_of(c[k]@) by {
+        assert(b.contains_key(k));
+        if k == u.verifying_key {
+            assert(c[k]@ == user_list(b, k).push(u));
+            assert(b[k]@.is_prefix_of(c[k]@));
+        } else {
+            assert(b.contains_key(k) == c.contains_key(k));
+            assert(b[k] == c[k]);
+        }
+    }
+}
+pub proof fn lemma_rights_appended_extend(a: Map<String, Vec<EntityRight>>, b: Map<String, Vec<EntityRight>>, c: Map<String, Vec<EntityRight>>, r: EntityRight)
+    requires rights_extend(a, b), rights_appended(b, c, r),
+    ensures rights_extend(a, c),
+{
+    assert forall|k: String| #[trigger] a.contains_key(k) implies c.contains_key(k) && a[k]@.is_prefix_of(c[k]@) by {
+        assert(b.contains_key(k));
+        if k == er_entity(r) {
+            assert(c[k]@ == right_list(b, k).push(r));
+            assert(b[k]@.is_prefix_of(c[k]@));
+        } else {
+            assert(b.contains_key(k) == c.contains_key(k));
+            assert(b[k] == c[k]);
+        }
+    }
+}
+pub open spec fn sub_keys_ok(m: Map<String, Vec<InsertEntity>>) -> bool {
+    forall|k: String| #[trigger] m.contains_key(k) ==> k@ == system_entities::AUTH_RIGHTS_FIELD@ || k@ == system_entities::AUTH_USER_FIELD@ || k@ == system_entities::AUTH_USER_ADMIN_FIELD@
+}
+
+/// the group a mutation starts from: the group of that id in the room, or a fresh empty group
+pub open spec fn group_before(room: Room, gid: Uid, g: Authorisation) -> bool {
+    if room.authorisations@.contains_key(gid) { g == room.authorisations@[gid] }
+    else { g.id == gid && g.users@ == Map::<Vec<u8>, Vec<User>>::empty() && g.user_admins@ == Map::<Vec<u8>, Vec<User>>::empty() && g.rights@ == Map::<String, Vec<EntityRight>>::empty() }
+}
+/// what a group mutation may do without the room-admin right: nothing to rights and user admins; users only if the caller is a
+/// user admin of the resulting group at the operation's date
+pub open spec fn group_change_without_admin_ok(g0: Authorisation, g: Authorisation, caller: Vec<u8>, date: i64) -> bool {
+    g.rights == g0.rights && g.user_admins == g0.user_admins && (g.users != g0.users ==> spec_can_admin_users(g, caller, date))
+}
+pub open spec fn auth_loop_inv(g0: Authorisation, g: Authorisation, need_room_admin: bool, need_user_admin: bool) -> bool {
+    group_extends(g0, g)
+    && (!need_room_admin ==> g.rights == g0.rights && g.user_admins == g0.user_admins)
+    && (!need_user_admin ==> g.users == g0.users)
+}
+
+//@ extract src/database/authorisation_service.rs :: impl RoomAuthorisations / fn validate_authorisation_mutation
+//@ result r
+//@ attr #[verifier::exec_allows_no_decreases_clause]
+//@ attr #[verifier::loop_isolation(false)]
+//@ rewrite E16 "\"sys\.[A-Za-z]+\"\.to_string\(\)" => "fmt_stub()" x*
+//@ rewrite E16 "ROOM_ENT\.to_string\(\)" => "fmt_stub()" x*
+//@ rewrite E3 "\.\.Default::default\(\)" => "..Authorisation::default()" x1
+//@ insert before-stmt "let mut need_user_admin = false;"
+        let ghost g0 = *authorisation;
+        assert(group_before(*old(room), old(insert_entity).node_to_mutate.id, g0));
+//@ loop "for entry in &insert_entity.sub_nodes" iter ite
+            invariant iter_covers(insert_entity.sub_nodes@, ite.seq()), insert_entity.sub_nodes == old(insert_entity).sub_nodes,
+                insert_entity.node_to_mutate == old(insert_entity).node_to_mutate,
+                // [group_only_grows] whatever the mutation contains, every history list of the group only grows (append-only), and rights / user admins (users) are untouched unless the room-admin (user-admin) right will be demanded
+                auth_loop_inv(g0, *authorisation, need_room_admin, need_user_admin),
+//@ loop "for insert_entity in entry.1" #1 iter iti
+                        invariant auth_loop_inv(g0, *authorisation, need_room_admin, need_user_admin), need_room_admin,
+//@ loop "for insert_entity in entry.1" #2 iter iti
+                        invariant auth_loop_inv(g0, *authorisation, need_room_admin, need_user_admin), need_user_admin,
+//@ loop "for insert_entity in entry.1" #3 iter iti
+                        invariant auth_loop_inv(g0, *authorisation, need_room_admin, need_user_admin), need_room_admin,
+//@ insert before-stmt "authorisation.add_right(right)"
+                                let ghost gb = *authorisation; let ghost rc = right;
+//@ insert after-stmt "authorisation.add_right(right)"
+                                proof { lemma_rights_appended_extend(g0.rights@, gb.rights@, authorisation.rights@, rc); }
+//@ insert before-stmt "authorisation.add_user(user)"
+                                let ghost gb = *authorisation; let ghost uc = user;
+//@ insert after-stmt "authorisation.add_user(user)"
+                                proof { lemma_users_appended_extend(g0.users@, gb.users@, authorisation.users@, uc); }
+//@ insert before-stmt "authorisation.add_user_admin(user)"
+                                let ghost gb = *authorisation; let ghost uc = user;
+//@ insert after-stmt "authorisation.add_user_admin(user)"
+                                proof { lemma_users_appended_extend(g0.user_admins@, gb.user_admins@, authorisation.user_admins@, uc); }
+//@ spec
+        requires sub_keys_ok(old(insert_entity).sub_nodes@),      // the mutation parser only produces the three list fields of sys.Authorisation
+        ensures
+            // [group_mutation_append_only]{C01} an accepted group mutation only appends: for some group g0 the room held (or a fresh group), the resulting group extends g0 list by list, every other group and the admin list are untouched
+            r is Ok ==> final(room).admins == old(room).admins && final(room).id == old(room).id
+                && final(room).authorisations@.contains_key(old(insert_entity).node_to_mutate.id)
+                && (exists|g0: Authorisation| group_before(*old(room), old(insert_entity).node_to_mutate.id, g0)
+                        && group_extends(g0, final(room).authorisations@[old(insert_entity).node_to_mutate.id])
+                        // [group_mutation_needs_right]{C01} and unless the room-admin right is demanded (result true) rights and user admins are unchanged and users change only if the caller is a user admin of the group at the operation's date
+                        && (r->Ok_0 == false ==> group_change_without_admin_ok(g0, final(room).authorisations@[old(insert_entity).node_to_mutate.id], *verifying_key, old(insert_entity).node_to_mutate.date)))
+                && (forall|id: Uid| id != old(insert_entity).node_to_mutate.id ==> (#[trigger] final(room).authorisations@.contains_key(id) == old(room).authorisations@.contains_key(id))
+                        && (old(room).authorisations@.contains_key(id) ==> final(room).authorisations@[id] == old(room).authorisations@[id])),
+            // [group_rows_carry_no_room_id]{C01}
+            r is Ok ==> old(insert_entity).node_to_mutate.room_id is None && old(insert_entity).edge_deletions@.len() == 0,
 //@ end
 } // verus!
 fn main() {}
